@@ -28,7 +28,14 @@ RULE = ("histories: (i) exhaustive single operations (clear, push_back, pop_back
         "characters behind size()) is compared with the model's array after every step (histb). queries: the six search members with explicit and default position, compare, "
         "compare(pos1,n1,str,pos2,n2), copy, replace on every content of length <= 3 x needle of length <= 2 x "
         "pos in {0..len+1, npos}; compare/compare5/search again on every pair of contents of length <= 2 over the full "
-        "alphabet {a, b, top-bit character (negative for char/wchar_t), NUL} for all five character types. non-trivial = distinct case whose impl leg contains a non-empty state")
+        "alphabet {a, b, top-bit character (negative for char/wchar_t), NUL} for all five character types. Added by the review: every iterator-taking "
+        "overload (append / assign / constructor) with pointers, etl::reverse_iterator, a forward-only and an input-only iterator; 23 mutator forms and 7 "
+        "replace forms whose argument is the string itself or a pointer / C string / view / substring / iterator range of it (contents of length <= 2 "
+        "exhaustively, lengths 3 and 5 on seven configurations, random histories); every default argument written in the header (qdz_, qdc_, erd, er1, subd, "
+        "sub1, ass2, avs2, zss2, zvs2, iss3, ivs3, c4s, c4v, replace4, copy2); const members on random contents of length 4..12 with needles cut out of the "
+        "content (8 configurations); needle sets containing NUL with positions around size(); right-hand sides of another capacity (compare/relational up to 31 "
+        "characters, operator+ / += with capacity 5); operator=(Char), assign(str), operator=(view), operator+=(view), (count, ch) constructor, reverse iteration. "
+        "Spec leg outside std's domain: 'contract' where the documented precondition is false, else 'na'. non-trivial = distinct case whose impl leg contains a non-empty state")
 
 TRUSTED_BASE = ["reference leg: libstdc++ 12 std::basic_string on the same histories"]
 ASSUMPTIONS = ["LP64: size_t is 64 bits", "char signed 8-bit, wchar_t signed 32-bit (x86-64 Linux)",
@@ -247,6 +254,7 @@ def gen_queries_long(ck, cap, out, rng, count):
         out.append(f"replacez {ck} {cap} {L(l)} {p} {c} {L(x)}")
         out.append(f"replacep {ck} {cap} {L(l)} {p} {c} {L(x + [al[1]])} {len(x)}")
         out.append(f"replace5 {ck} {cap} {L(l)} {p} {c} {L(x)} {rng.randint(0, len(x))} {rng.choice([0, 1, 2, NPOS])}")
+        out.append(f"replace4 {ck} {cap} {L(l)} {p} {c} {L(x)} {rng.randint(0, len(x))}")
 
 
 def gen_queries_hi(ck, cap, out, rng):
@@ -376,7 +384,7 @@ def single_ops2(l, al, cap):
     # every iterator-taking overload with pointers, etl::reverse_iterator (random access, not contiguous), a
     # forward-only and an input-only iterator
     for src in srcs + [[a, b, b]]:
-        for o in ["arr", "arf", "ari", "zr", "zrr", "zrf", "krr", "krf"]:
+        for o in ["arr", "arf", "ari", "zr", "zrr", "zrf", "zri", "krr", "krf"]:
             ops.append(f"{o} {L(src)}")
     ops += self_ops(n)
     # another capacity (5) on the right: empty ... full ... too long for it
@@ -551,7 +559,7 @@ def gen_history(rng, ck, cap, extra=False):
                 continue
             if o == "ITER":
                 src = rchars(rng, ck, rng.randint(0, min(4, max(room, 0)) if not wild else 4))
-                io = rng.choice(["arr", "arf", "ari", "zr", "zrr", "zrf", "krr", "krf"])
+                io = rng.choice(["arr", "arf", "ari", "zr", "zrr", "zrf", "zri", "krr", "krf"])
                 if io in ("arr", "arf", "ari"):
                     ops.append(f"{io} {L(src)}")
                     if len(src) > room:
@@ -711,7 +719,18 @@ def gen(tier, rng):
             pre = [f"asp {L(l)} {len(l)}"]
             for o in self_ops(n)[::1 if not quick else 3]:
                 out.append(hist(ck, cap, pre + [o]))
-            for o in ["arr", "arf", "ari", "zr", "zrr", "zrf", "krr", "krf"]:
+            # default arguments on strings that are longer than any plausible wrong default (and on a full string)
+            src4 = [al[1], al[0], 99, 100]
+            dops = ["erd", "subd"]
+            for q in sorted(set([0, 1, n - 1, n, n + 1])):
+                dops += [f"er1 {q}", f"sub1 {q}"]
+            for q in [0, 1, 4, 5]:
+                dops += [f"zss2 {L(src4)} {q}", f"zvs2 {L(src4)} {q}", f"ass2 {L(src4)} {q}", f"avs2 {L(src4)} {q}",
+                         f"iss3 0 {L(src4)} {q}", f"ivs3 {n} {L(src4)} {q}"]
+            for o in dops:
+                out.append(hist(ck, cap, pre + [o]))
+                out.append(hist(ck, cap, [f"af {cap} {al[0]}", o]))
+            for o in ["arr", "arf", "ari", "zr", "zrr", "zrf", "zri", "krr", "krf"]:
                 for src in [[], [al[1]], [al[0], al[1], al[2]], [99, 100, 101, 102, 103, 104, 105, 106, 107, 108, 109, 110, 111]]:
                     out.append(hist(ck, cap, pre + [f"{o} {L(src)}"]))
     add_raw(out, rng, 0.2 if quick else 0.5)
